@@ -19,7 +19,7 @@ CachedApis == {"query", "send", "lquery", "lsend"}
 
 HCall(e) ==
   IF e.api \in CachedApis THEN
-       /\ creq' = creq @@ (e.t :> [key |-> Key(e.kname, e.qt, e.rd, e.cd), api |-> e.api])
+       /\ creq' = creq @@ (e.t :> [key |-> Key(e.kname, e.qt, e.qc, e.rd, e.cd), api |-> e.api])
        /\ cur' = Append(cur, [t |-> e.t, sent |-> FALSE])
        /\ cnow' = e.now /\ UNCHANGED <<ccfg, cache, cq, csrv>> /\ Acc
   ELSE IF e.api = "setservers" THEN
@@ -35,7 +35,7 @@ RECURSIVE NoteFrames(_, _, _, _, _, _, _)
 NoteFrames(qq, frames, i, tcp, fd, sv, prb) ==
   IF i > Len(frames) THEN qq
   ELSE LET f == frames[i]
-           rec == [key |-> Key(f.kname, f.qt, f.rd, f.cd), lname |-> f.lname, name |-> f.name, qt |-> f.qt, tcp |-> tcp, fd |-> fd, pend |-> IF f.qid \in DOMAIN qq THEN qq[f.qid].pend ELSE <<>>,
+           rec == [key |-> Key(f.kname, f.qt, f.qc, f.rd, f.cd), lname |-> f.lname, name |-> f.name, qt |-> f.qt, qc |-> f.qc, tcp |-> tcp, fd |-> fd, pend |-> IF f.qid \in DOMAIN qq THEN qq[f.qid].pend ELSE <<>>,
                    srv |-> sv, probe |-> IF f.qid \in DOMAIN qq THEN qq[f.qid].probe ELSE prb]
        IN IF f.bad = 1 THEN NoteFrames(qq, frames, i + 1, tcp, fd, sv, prb)
           ELSE NoteFrames(IF f.qid \in DOMAIN qq THEN [qq EXCEPT ![f.qid] = rec] ELSE qq @@ (f.qid :> rec), frames, i + 1, tcp, fd, sv, prb)
@@ -45,7 +45,7 @@ MarkSent == cur' = [i \in 1..Len(cur) |-> IF i = Len(cur) THEN [cur[i] EXCEPT !.
 (* a response can only be accepted for a query that is still outstanding (cq holds the wire queries transmitted and
    not yet answered with a final answer) and on the connection of its latest transmission *)
 Matches(p) == /\ p.parse = 1 /\ p.qid \in DOMAIN cq /\ p.fd = cq[p.qid].fd
-              /\ p.qt = cq[p.qid].qt /\ p.qc = 1
+              /\ p.qt = cq[p.qid].qt /\ p.qc = cq[p.qid].qc
               /\ (IF ccfg.dns0x20 = 1 /\ ~cq[p.qid].tcp THEN p.name = cq[p.qid].name ELSE p.lname = cq[p.qid].lname)
 
 HSk(e) ==
